@@ -119,6 +119,22 @@ def run(ctx) -> None:
                  f"n{gen.nclass(n)}|{'f>s' if ft > st else 'f<=s'}|{fs}", trivial=fs == "1",
                  sample={"x": x, "t": t, "suspect_threshold": st, "fail_threshold": ft, "test_period": period,
                          "min_obs": min_obs, "min_period": min_period, "check_type": kind, "observed": o.brief()})
+    if ctx.shard == 0:
+        n = 20001
+        x = [float((k * 5) % 3) for k in range(n)]
+        for b in (4096, 8192, 16384):
+            for k in range(b - 4, b + 5):
+                x[k] = 7.0
+            x[b + 9] = None
+        t = gen.regular(n, 60)
+        for kind in ("std", "range"):
+            kw = {"inp": gen.arr(x), "tinp": gen.times(t), "suspect_threshold": 0.9, "fail_threshold": 0.3, "test_period": 300,
+                  "min_obs": 3, "check_type": kind}
+            client.expect(ctx, "C12", "qartod.attenuated_signal_test", kw,
+                          lambda: models.attenuated(x, t, 0.9, 0.3, 300, 3, None, kind),
+                          logical={"x": "20001 points, flat stretches around 4096/8192/16384", "check_type": kind}, hist=f"attenuated.{kind}")
+            ctx.count("attenuated.calls")
+            ctx.case(f"huge|{kind}")
     # history: the sampling step belongs to the axis of THIS call (regular axis, then a burst-sampled axis with one
     # outage that has the same length and the same first and last instant, and the other way round)
     for _ in range(ctx.pick(60, 400)):
